@@ -23,6 +23,7 @@ type c11Ref struct {
 	Target   int    `json:"target"` // file index, -1: intentionally missing
 	IfExists bool   `json:"if_exists,omitempty"`
 	With     string `json:"with,omitempty"`
+	With2    string `json:"with2,omitempty"` // a second pair (wv2)
 	Only     bool   `json:"only,omitempty"`
 	Dead     bool   `json:"never_executed,omitempty"` // lazy include under a false condition
 }
@@ -351,6 +352,9 @@ func c11Finish(tp *Tapes, sp *c11Spec) {
 					ref.With = fmt.Sprintf("W%d_%d", i, r)
 					ref.Only = true
 				}
+				if ref.With != "" && g.Draw(2) == 1 {
+					ref.With2 = fmt.Sprintf("V%d_%d", i, r)
+				}
 				if ref.Type == "lazy" && g.Draw(6) == 0 {
 					ref.Dead = true
 				}
@@ -387,6 +391,9 @@ func c11RefText(ref c11Ref, k int) string {
 	}
 	if ref.With != "" {
 		tail += fmt.Sprintf(` with wv="%s"`, ref.With)
+		if ref.With2 != "" {
+			tail += fmt.Sprintf(` wv2="%s"`, ref.With2)
+		}
 		if ref.Only {
 			tail += " only"
 		}
@@ -426,7 +433,7 @@ func c11Content(sp *c11Spec, i, d int) string {
 	case "child":
 		return fmt.Sprintf(`{%% extends "%s" %%}{%% block k %%}<C:%s@%d>%s{{ block.Super }}</C>{%% endblock %%}`, f.PName, f.Path, d, refs.String())
 	}
-	return fmt.Sprintf("<F:%s@%d|pv={{ pv }}|wv={{ wv }}>%s</F>", f.Path, d, refs.String())
+	return fmt.Sprintf("<F:%s@%d|pv={{ pv }}|wv={{ wv }}|w2={{ wv2 }}>%s</F>", f.Path, d, refs.String())
 }
 
 func c11DiskPath(sp *c11Spec, p string) string {
@@ -438,7 +445,7 @@ func c11DiskPath(sp *c11Spec, p string) string {
 
 // ---- reference interpreter -----------------------------------------------------------
 
-type c11Env struct{ pv, wv string }
+type c11Env struct{ pv, wv, wv2 string }
 
 type c11Fault struct {
 	Disk  int    `json:"disk"`
@@ -600,7 +607,7 @@ func (r *c11Ref2) exec(n *c11Node, name string, env c11Env, b *strings.Builder) 
 	case "macros":
 		return true // a macro file renders nothing by itself
 	}
-	fmt.Fprintf(b, "<F:%s@%d|pv=%s|wv=%s>", f.Path, n.disk, env.pv, env.wv)
+	fmt.Fprintf(b, "<F:%s@%d|pv=%s|wv=%s|w2=%s>", f.Path, n.disk, env.pv, env.wv, env.wv2)
 	if !r.execRefs(n, f, name, env, b) {
 		return false
 	}
@@ -620,6 +627,9 @@ func (r *c11Ref2) execRefs(n *c11Node, f c11File, execName string, env c11Env, b
 		}
 		if ref.With != "" {
 			sub.wv = ref.With
+		}
+		if ref.With2 != "" {
+			sub.wv2 = ref.With2
 		}
 		switch ref.Type {
 		case "inc":
